@@ -1,7 +1,7 @@
 #!/bin/bash
 # Runs the pinned test suite (guard OFF) and checks that every stable_pass test of BASELINE.json still passes.
 out=$(mktemp /tmp/junit.XXXXXX.xml)
-cd /repo && env -u GEMCLUS_VERIF /venv/bin/python -m pytest -ra -q -p no:cacheprovider --timeout=900 --continue-on-collection-errors --junitxml=$out >/tmp/baseline.log 2>&1
+cd /repo && env -u GEMCLUS_VERIF OMP_NUM_THREADS=2 OPENBLAS_NUM_THREADS=2 /venv/bin/python -m pytest -ra -q -p no:cacheprovider --timeout=900 --continue-on-collection-errors --junitxml=$out >/tmp/baseline.log 2>&1
 /venv/bin/python - "$out" <<'PY'
 import json,sys,xml.etree.ElementTree as ET
 b=json.load(open('/root/.vp/BASELINE.json'))
